@@ -1,11 +1,13 @@
 """C13 - backends see the client's request plus truthful, unspoofable proxy metadata (spec/HeaderEdit.tla).
 
-1. TLC checks P_C13 on the function-style spec with no deviation: every header-token list up to the
-   bound x listener configuration x peer class x frontend/backend protocol (design level).
-2. For every open deviation TLC is re-run with only that deviation on and must produce a counterexample.
-3. Generator run (open deviations on): TLC prints one REPLAY line per selected case with the predicted
-   backend header list / trailer list / cookie crumbs and the predicted client-side response header list.
-4. harness/replay_headers concretises every case and sends it through REAL sozu workers (one listener per
+1. One TLC run enumerates every header-token list up to the bound x listener configuration x peer class x
+   frontend/backend protocol; on each case it checks P_C13 with no deviation (design level) and, for the
+   cases selected by the seed, prints a REPLAY line with the predictions of the code-as-it-is (open
+   deviations on): backend header list / trailer list / cookie crumbs, client-side response header list.
+2. Every open deviation must still break P_C13 in the model: a witness case per deviation is evaluated by
+   an ASSUME of the spec in every run; the thorough tier also re-runs TLC with each deviation switched on
+   and requires a counterexample.
+3. harness/replay_headers concretises every case and sends it through REAL sozu workers (one listener per
    listener configuration) to recording H1 / h2c backends, and compares what the backend parsed and what the
    client received with the prediction, modulo the freedom the spec leaves (position of proxy-added
    fields, cookie re-crumbing, the optional sticky cookie).
@@ -23,6 +25,7 @@ CONSTANTS
   MaxTr = %(tr)d
   MaxResp = %(resp)d
   Deviations = %(dev)s
+  CheckDeviations = %(cdev)s
   Emit = %(emit)s
   SampleMod = %(mod)d
   SampleRes = %(res)d
@@ -36,13 +39,32 @@ def tla_set(xs):
     return "{" + ", ".join('"%s"' % x for x in xs) + "}"
 
 
-def write_cfg(wd, name, req, tr, resp, dev, emit, mod, res, shape):
+def write_cfg(wd, name, req, tr, resp, dev, cdev, emit, mod, res, shape):
     path = os.path.join(wd, name)
     with open(path, "w") as f:
-        f.write(CFG % {"req": req, "tr": tr, "resp": resp, "dev": tla_set(dev), "emit": "TRUE" if emit else "FALSE",
-                       "mod": mod, "res": res, "shape": shape,
-                       "checks": "INVARIANTS EmitCase" if emit else "INVARIANTS TypeOK P_C13"})
+        f.write(CFG % {"req": req, "tr": tr, "resp": resp, "dev": tla_set(dev), "cdev": tla_set(cdev),
+                       "emit": "TRUE" if emit else "FALSE", "mod": mod, "res": res, "shape": shape,
+                       "checks": "INVARIANTS TypeOK P_C13 EmitCase" if emit else "INVARIANTS TypeOK P_C13"})
     return path
+
+
+# number of cases TLC enumerates within the bounds (measured; only used to size the replayed sample)
+ENUMERATED = {"quick": 196560, "thorough": 2000000}
+
+
+def replay_cases(wd, path):
+    """--replay accepts a violation file written by this check (its "case" is replayed) or a cases ndjson."""
+    with open(path) as f:
+        text = f.read()
+    try:
+        obj = json.loads(text)
+    except ValueError:
+        return path
+    case = obj.get("case", obj)
+    out = os.path.join(wd, "replay_case.ndjson")
+    with open(out, "w") as f:
+        f.write(json.dumps(case) + "\n")
+    return out
 
 
 def run(tier, replay=None):
@@ -54,41 +76,33 @@ def run(tier, replay=None):
     workers = 16 if thorough else 8
     bounds = (3, 2, 3, "thorough") if thorough else (2, 1, 2, "quick")
 
-    # 1. design level, no deviation
-    r = vlib.tlc("HeaderEdit", write_cfg(wd, "mc.cfg", *bounds[:3], [], False, 1, 0, bounds[3]), PID,
-                 workers=workers, timeout=3000 if thorough else 600)
-    rep.add_tlc(r)
-    total_cases = r["distinct"]
-    if r["violated"]:
-        rep.violation("spec:" + r["violated"], "the specification itself violates %s" % r["violated"], r["out"])
-    # 2. each open deviation must still break the property in the model
-    for d in devs:
-        rd = vlib.tlc("HeaderEdit", write_cfg(wd, "mc_dev.cfg", 2, 1, 1, [d], False, 1, 0, "quick"), PID,
-                      workers=workers, timeout=600)
-        rep.add_tlc(rd)
-        if not rd["violated"]:
-            raise vlib.ToolError("deviation %s no longer violates P_C13 in the model" % d)
-        vlib.log("deviation %s: TLC counterexample to %s as expected" % (d, rd["violated"]))
-
-    # 3. generator: thin the enumerated cases down to what the real workers can replay in the budget
-    target = 160000 if thorough else 14000
-    mod = max(1, total_cases // target)
+    # 1. design level (no deviation) + generator (predictions with the open deviations), one enumeration
+    target = 200000 if thorough else 40000
+    mod = max(1, ENUMERATED[bounds[3]] // target)
     cases = os.path.join(wd, "cases.ndjson")
+    with open(cases, "w") as f:
+        g = vlib.tlc("HeaderEdit", write_cfg(wd, "mc_gen.cfg", *bounds[:3], devs, [], True, mod, vlib.seed() % mod, bounds[3]),
+                     PID, workers=workers, timeout=3000 if thorough else 600, want_replay=True,
+                     replay_sink=lambda o: f.write(json.dumps(o) + "\n"))
+    rep.add_tlc(g)
+    if g["violated"]:
+        rep.violation("spec:" + g["violated"], "the specification itself violates %s" % g["violated"], g["out"])
+    vlib.log("generator: %d cases selected out of %d (1 in %d)" % (g["n_replays"], g["distinct"], mod))
+    if g["n_replays"] == 0:
+        raise vlib.ToolError("generator produced no case")
     if replay:
-        cases = replay
-    else:
-        with open(cases, "w") as f:
-            g = vlib.tlc("HeaderEdit", write_cfg(wd, "gen.cfg", *bounds[:3], devs, True, mod, vlib.seed() % mod, bounds[3]),
-                         PID, workers=workers, timeout=3000, want_replay=True,
-                         replay_sink=lambda o: f.write(json.dumps(o) + "\n"))
-        rep.add_tlc(g)
-        if g["violated"]:
-            raise vlib.ToolError("generator run reported a violation: %s" % g["violated"])
-        vlib.log("generator: %d cases selected out of %d (1 in %d)" % (g["n_replays"], g["distinct"], mod))
-        if g["n_replays"] == 0:
-            raise vlib.ToolError("generator produced no case")
+        cases = replay_cases(wd, replay)
+    # 2. each open deviation must still break the property in the model (witness ASSUME ran above)
+    if thorough:
+        for d in devs:
+            rd = vlib.tlc("HeaderEdit", write_cfg(wd, "mc_dev.cfg", 2, 1, 1, devs, [d], False, 1, 0, "quick"), PID,
+                          workers=workers, timeout=900)
+            rep.add_tlc(rd)
+            if not rd["violated"]:
+                raise vlib.ToolError("deviation %s no longer violates P_C13 in the model" % d)
+            vlib.log("deviation %s: TLC counterexample to %s as expected" % (d, rd["violated"]))
 
-    # 4. replay through real workers
+    # 3. replay through real workers
     out = vlib.run_harness(bins["replay_headers"],
                            ["--cases", cases, "--seed", str(vlib.seed()), "--workers", "8" if thorough else "6",
                             "--clients", "32" if thorough else "24"],
